@@ -11,7 +11,7 @@ import KiraModel.Model.Effects.EqFilter
 import KiraModel.Model.Effects.Distortion
 import KiraModel.Model.Effects.Compressor
 
-namespace K.Exec
+namespace K.Exec.FxA
 open K K.Proto
 
 inductive FxAny where
@@ -221,4 +221,4 @@ def fxaStep (st : FxAState) (tok : List String) : Option (FxAState × String) :=
       pure ({ st with fx := r.1 }, s!"{show32 d.lastL} {show32 d.lastR} {d.sum} {d.nonFinite}")
   | _ => none
 
-end K.Exec
+end K.Exec.FxA
